@@ -54,6 +54,8 @@ class SecopClient(frappy.client.SecopClient):
         return name
 
     def updateEvent(self, module, parameter, value, timestamp, readerror):
+        if self.dispatcher.node_by_module.get(module) is not self:
+            return  # a module with this name is already presented by another node
         specifier = f'{module}:{parameter}'
         if readerror:
             msg = ERRORPREFIX + EVENTREPLY, specifier, (readerror.name, str(readerror), {'t': timestamp})
@@ -116,14 +118,14 @@ class Router(frappy.protocol.dispatcher.Dispatcher):
         for node in self.nodes:
             if node.online:
                 for module in node.modules:
-                    self.node_by_module[module] = node
+                    self.node_by_module.setdefault(module, node)
                 nodes.append(node)
             else:
 
                 def nodeStateChange(online, state, self=self, node=node):
                     if online:
                         for module in node.modules:
-                            self.node_by_module[module] = node
+                            self.node_by_module.setdefault(module, node)
                         self.nodes.append(node)
                         self.restart()
                         raise frappy.client.UnregisterCallback()
@@ -160,6 +162,8 @@ class Router(frappy.protocol.dispatcher.Dispatcher):
         super().handle_activate(conn, specifier, data)
         for node in self.nodes:
             for (module, parameter), (value, t, readerror) in node.cache.items():
+                if self.node_by_module.get(module) is not node:
+                    continue  # hidden by the module with the same name of another node
                 spec = f'{module}:{parameter}'
                 if readerror:
                     reply = ERRORPREFIX + EVENTREPLY, spec, (readerror.name, str(readerror), {'t': t})
